@@ -185,6 +185,8 @@ class Tracer:
                 return orig(self_)
             tr._check_ph(w)
             cs = self_._comments_to_claim
+            if getattr(tr, '_api_sel_set', False):
+                cs = _ic._Universe() if tr._api_sel is None else set(tr._api_sel)
             sset = '*' if isinstance(cs, _ic._Universe) else enc_ids(sorted(tr.ids(_find_obj(cs_id, tr, store)) for cs_id in cs))
             line = (f'M inter {enc_store(w, tr.ids)} {tr.ids(rep.first_token)} {tr._enc_items(rep.items, tr.ids)} '
                     f'{tr.ids(model.first_token)} {tr.ids(model.last_token)} {sset}')
@@ -273,6 +275,23 @@ class Tracer:
         M = _sc.SurroundingCommentsMixin
         self._saved = (_sc._claim_comment, _ic._shift_ignored, _ic._CommentClaimer.claim, W.unclaim_interleaving_comments,
                        M.unclaim_leading_comment, M.unclaim_trailing_comment)
+        self._saved_api_claim = W.claim_interleaving_comments
+        tr, orig_api = self, W.claim_interleaving_comments
+
+        def claim_interleaving_comments(self_, comments=None):
+            # the selection AS THE CALLER GAVE IT (None = everything; the empty list is a selection): the model line of the
+            # claimer is fed from here, not from what the claimer's constructor made of it
+            if comments is not None:
+                comments = list(comments)
+                tr._api_sel = [id(c) for c in comments]
+            else:
+                tr._api_sel = None
+            tr._api_sel_set = True
+            try:
+                return orig_api(self_, comments)
+            finally:
+                tr._api_sel_set = False
+        W.claim_interleaving_comments = claim_interleaving_comments
         _sc._claim_comment = self._wrap_claim_comment(_sc._claim_comment)
         _ic._shift_ignored = self._wrap_shift(_ic._shift_ignored)
         _ic._CommentClaimer.claim = self._wrap_claimer(_ic._CommentClaimer.claim)
@@ -286,6 +305,7 @@ class Tracer:
         M = _sc.SurroundingCommentsMixin
         (_sc._claim_comment, _ic._shift_ignored, _ic._CommentClaimer.claim, W.unclaim_interleaving_comments,
          M.unclaim_leading_comment, M.unclaim_trailing_comment) = self._saved
+        W.claim_interleaving_comments = self._saved_api_claim
         return False
 
     # -- diff -------------------------------------------------------------------------------------------------
